@@ -38,6 +38,8 @@ TEMPLATES = [
     # the error is one template 8 (a caller that catches) handles
     "def {n}(x):\n    if x == {k} % 3:\n        raise TypeError('outside the domain')\n    return {a}(x) + {k}",
     "def {n}(x):\n    if x == {k} % 3:\n        raise TypeError('outside the domain')\n    return {r} + x",
+    # a cells of a child space reading a cells of the PARENT space by attribute path (`_space.parent.rate(x)`)
+    "def {n}(x): return _space.parent.{a}(x) + {k}",
 ]
 N_BASE_TEMPLATES = 11
 
@@ -61,6 +63,8 @@ def space_formula_src(v):
         return None
     if v == 1:
         return SPACE_TEMPLATES[1]
+    if v == "BAD":
+        return "lambda i: ("            # malformed source text
     i, r, c, a = v
     return SPACE_TEMPLATES[i].format(r=r, c=c, a=a)
 
@@ -72,7 +76,7 @@ def formula_src(name, t):
 
 
 NEEDS = [set(), {"a"}, {"r"}, {"c", "cr"}, {"c", "ca"}, {"a"}, {"r"}, {"u"}, {"a"}, {"ro"}, {"ci"},
-         {"a", "c", "cr"}, {"a", "r"}, {"a"}, {"r"}]
+         {"a", "c", "cr"}, {"a", "r"}, {"a"}, {"r"}, {"pa"}]
 
 
 def gen_formula(rng, spaces, space=None, ext=False):
@@ -105,6 +109,14 @@ def gen_formula(rng, spaces, space=None, ext=False):
         have |= {"c", "cr"}
     if ch_cells:
         have |= {"c", "ca"}
+    pcells = []
+    if ext:
+        try:
+            pcells = list(space.parent.cells) if "." in space.fullname.split(".", 1)[-1] else []
+        except Exception:   # noqa
+            pcells = []
+        if pcells:
+            have.add("pa")
     ok = [i for i in range(n_templates) if NEEDS[i] <= have]
     i = rng.choice(ok)
     a = rng.choice(cells) if cells else rng.choice(CELLS)
@@ -119,6 +131,8 @@ def gen_formula(rng, spaces, space=None, ext=False):
     if i == 10:
         c, a = rng.choice(ch_item)
         return (i, rng.randint(0, 1), a, r, c)
+    if i == 15:
+        a = rng.choice(pcells)
     return (i, rng.randint(1, 5), a, r, c)
 
 
@@ -252,7 +266,44 @@ class Live:
         if k == "allow_none":
             self.space(op[1]).allow_none = op[2]
             return "ok"
+        if k in ("new_cells_obj", "set_formula_obj", "set_param_obj", "new_space_obj"):
+            return self._apply_obj(k, op)
         return "bad-op"
+
+    def _apply_obj(self, k, op):
+        """a formula given as a Python OBJECT (formula_objs.OBJECTS[kind]) through every API that takes one:
+          ["new_cells_obj", space, name, kind]           space.new_cells(name, formula=obj)
+          ["set_formula_obj", space, cells, kind, how]   cells.formula = obj / cells.set_formula(obj) / @defcells(space, name)
+          ["set_param_obj", space, kind, how]            space.formula = obj / space.set_formula(obj)
+          ["new_space_obj", parent, name, bases, kind]   new_space(name, bases, formula=obj)"""
+        from . import formula_objs as FO
+        import warnings
+        with warnings.catch_warnings():
+            warnings.simplefilter("ignore")
+            if k == "new_cells_obj":
+                self.space(op[1]).new_cells(op[2], formula=FO.make(op[3]))
+            elif k == "set_formula_obj":
+                s = self.space(op[1])
+                c = s.cells[op[2]]
+                obj, how = FO.make(op[3]), op[4]
+                if how == "attr":
+                    c.formula = obj
+                elif how == "method":
+                    c.set_formula(obj)
+                elif how == "defcells":
+                    mx.defcells(space=s, name=op[2])(obj)
+                else:
+                    mx.defcells(space=s, name=op[2], is_cached=bool(c.is_cached))(obj)
+            elif k == "set_param_obj":
+                s = self.space(op[1])
+                if op[3] == "attr":
+                    s.formula = FO.make(op[2])
+                else:
+                    s.set_formula(FO.make(op[2]))
+            else:
+                parent = self.m if op[1] == "-" else self.space(op[1])
+                parent.new_space(op[2], bases=[self.space(b) for b in op[3]] or None, formula=FO.make(op[4]))
+        return "ok"
 
     def refvalue(self, v):
         """ints as they are; ('obj', path) denotes a space or cells of this model"""
@@ -304,10 +355,11 @@ def rel(model, obj):
     return obj.fullname.split(".", 1)[1] if "." in obj.fullname else ""
 
 
-def describe(model, with_values=True):
+def describe(model, with_values=True, with_items=False):
     """complete public description: per space its direct bases, linearisation, cells (derived flag,
     source, cached flag, allow_none, held values with input marks) and references (derived flag,
-    value, mode)"""
+    value, mode); with_items: also the ItemSpaces a parametrised space holds (argument keys, the
+    source of the space formula) - they are held results like the values of a cells"""
     d = {"mrefs": {}, "spaces": {}}
     for k, v in model.refs.items():
         if k.startswith("__"):
@@ -328,6 +380,9 @@ def describe(model, with_values=True):
             r = s._impl.own_refs[rn]
             sd["refs"][rn] = {"derived": bool(r.is_derived()), "value": val_repr(r.interface),
                               "mode": r.refmode}
+        if with_items:
+            sd["items"] = sorted(repr(k) for k in s._impl.param_spaces)
+            sd["param_src"] = getattr(s.formula, "source", None) if s.formula is not None else None
         d["spaces"][path] = sd
     return d
 
